@@ -263,6 +263,15 @@ def sym_extreme(ctx, arr, which):
 
 
 def reduce_sum(ctx, a):
+    if type(a).__name__ == "MaskSel":
+        base, mask = a.base, a.mask
+        zero = 0 if base.dtype in ("int", "bool") else Fraction(0)
+        if base.concrete_len():
+            picked = Arr(base.length, elems=[ops.ite(I.truth(mask.get(k)), base.get(k), zero) for k in range(base.length)],
+                         dtype=base.dtype)
+        else:
+            picked = Arr(base.length, fn=lambda i: ops.ite(I.truth(mask.get(i)), base.get(i), zero), dtype=base.dtype)
+        return reduce_sum(ctx, picked)
     if isinstance(a, Arr):
         if a.concrete_len():
             acc = 0 if a.dtype in ("int", "bool") else Fraction(0)
